@@ -5,6 +5,10 @@ import GB.C20.ProofsGwMain
 import GB.C20.ProofsStMain
 import GB.C20.ProofsVerb
 import GB.C20.ProofsLegalMain
+import GB.C20.ProofsStSoundMain
+import GB.C20.ProofsGwSoundMain
+import GB.C20.ProofsClasses
+import GB.C20.ProofsRecog
 import GB.Generated.Facts
 /-
   C20 — property theorems. Helper lemmas live in Proofs*.lean.
@@ -71,9 +75,7 @@ theorem C20_facts_fixes :
 /-! ### the grammar recogniser used as the oracle of the correspondence run -/
 
 /-- A `some` answer of the recogniser is a derivation (with that abstract syntax): the oracle never
-    calls a string derivable that is not. (The converse — the recogniser finds every derivation — is
-    not proved; it is exercised on every enumerated derivation of the run, where a miss would show up
-    as a violation on the unchanged tree.) -/
+    calls a string derivable that is not. The converse is `C20_recogniser_complete`. -/
 theorem C20_recogniser_sound (s : Bytes) (t : Tmpl) (h : specParse s = some t) : Derives s t := by
   unfold specParse specParseWith at h
   cases hc : specCandidate s with
@@ -86,6 +88,53 @@ theorem C20_recogniser_sound (s : Bytes) (t : Tmpl) (h : specParse s = some t) :
       simp only [Bool.and_eq_true, beq_iff_eq] at hw
       exact ⟨hw.1, hw.2⟩
     · simp [hw] at h
+
+/-- **The recogniser finds every derivation**, with its abstract syntax: the oracle of the differential run
+    is exact. -/
+theorem C20_recogniser_complete (s : Bytes) (t : Tmpl) (h : Derives s t) : specParse s = some t := by
+  obtain ⟨hw, hr⟩ := h
+  rw [← hr]
+  exact specParseWith_complete false t hw
+
+/-- `inGrammar` decides the grammar's language; the same for the relaxed grammar -/
+theorem C20_recogniser_exact (s : Bytes) :
+    (inGrammar s = true ↔ ∃ t, Derives s t) ∧ ((specParseWith true s).isSome = true ↔ ∃ t, DerivesRelaxed s t) := by
+  constructor
+  · constructor
+    · intro h
+      unfold inGrammar at h
+      cases hs : specParse s with
+      | none => simp [hs] at h
+      | some t => exact ⟨t, C20_recogniser_sound s t hs⟩
+    · rintro ⟨t, ht⟩
+      simp [inGrammar, C20_recogniser_complete s t ht]
+  · constructor
+    · intro h
+      cases hs : specParseWith true s with
+      | none => simp [hs] at h
+      | some t =>
+        refine ⟨t, ?_⟩
+        unfold specParseWith at hs
+        cases hc : specCandidate s with
+        | none => simp [hc] at hs
+        | some t' =>
+          simp only [hc] at hs
+          by_cases hw : (t'.wfB true && t'.render == s) = true
+          · simp only [hw, if_true, Option.some.injEq] at hs
+            subst hs
+            simp only [Bool.and_eq_true, beq_iff_eq] at hw
+            exact ⟨hw.1, hw.2⟩
+          · simp [hw] at hs
+    · rintro ⟨t, hw, hr⟩
+      rw [← hr, specParseWith_complete true t hw]; rfl
+
+/-- the grammar (with the stated reading of `:`) is unambiguous: a string has at most one abstract syntax, so
+    "the verb and field paths the grammar assigns" are well defined -/
+theorem C20_grammar_unambiguous (s : Bytes) (t t' : Tmpl) (h : Derives s t) (h' : Derives s t') : t = t' := by
+  have h1 := C20_recogniser_complete s t h
+  have h2 := C20_recogniser_complete s t' h'
+  rw [h1] at h2
+  exact Option.some.inj h2
 
 /-! ### tokenizer (both packages), over arbitrary byte strings -/
 
@@ -128,17 +177,9 @@ example : Derives [47, 118, 49, 47, 123, 110, 97, 109, 101, 61, 97, 47, 42, 125,
   · decide
 
 /-
-  Full statement of the rejection clause (DESIGN 5.20):
-    C20_gw_rejects : noLeadingSlash s ∨ illegalChar s ∨ badPercent s ∨ badBraces s ∨ badFieldPath s ∨ emptySegment s
-                       → ∀ g, gwParse s ≠ .ok g
-  Proved below: no leading slash, NUL, illegal path characters (any byte outside the template alphabet,
-  anywhere in the string, the verb included — D22). The remaining classes (ill-formed percent-escape,
-  unbalanced / nested variables, bad field paths, empty segments) need the converse of
-  `C20_gw_complete_relaxed` (gwParse s = .ok g → ∃ t, DerivesRelaxed s t), which is not proved: it needs the
-  tokenizer/parser state synchronisation argument behind "variable inside variable is not possible thanks to
-  tokenize". They are checked on every run against the recogniser for all strings of length ≤ 5 over
-  {/ { } = . * : a %}, every single-edit mutation of sampled derivations, a byte sweep and random strings
-  (driver verdict VIOL), and `C20_gw_legacy_accept_fails` pins the D19 witnesses on the model.
+  First part of the rejection clause (no leading slash, NUL, illegal path characters — proved directly from the
+  "consumed tokens are legal" invariant, before the soundness theorem existed). Kept under its original name;
+  the full clause is `C20_gw_rejects` below.
 -/
 theorem C20_gw_rejects_partial (s : Bytes)
     (h : noLeadingSlash s = true ∨ (0 : UInt8) ∈ s ∨ illegalChar s = true) : ∀ g, gwParse s ≠ .ok g := by
@@ -167,13 +208,54 @@ theorem C20_gw_rejects_partial (s : Bytes)
 /-- the hypotheses are satisfiable: "/a:b c" (a space in the verb) is such a string, and was accepted before D22 -/
 example : illegalChar [47, 97, 58, 98, 32, 99] = true := by decide
 
+/-- **gwbased soundness w.r.t. the relaxed grammar** (`**` anywhere): whatever `Parse` (with the exact "/"
+    matching the fixed code sets) accepts is the print of a template that is well-formed in the relaxed grammar,
+    and the verb it returns is that template's verb. Same synchronisation invariant as for the strict parser;
+    the verb cut off by `tokenize` is put back with `validE_replace_last`. -/
+theorem C20_gw_sound (s : Bytes) (g : GwTemplate) (h : gwParse s = .ok g) :
+    ∃ t, DerivesRelaxed s t ∧ g.verb = t.verbStr := by
+  obtain ⟨t, h1, h2, h3⟩ := gwParse_sound s g h
+  exact ⟨t, ⟨h1, h2⟩, h3⟩
+
+/-- **gwbased accepts exactly the relaxed grammar's language**, for all byte strings. -/
+theorem C20_gw_exact_relaxed (s : Bytes) : (∃ g, gwParse s = .ok g) ↔ (∃ t, DerivesRelaxed s t) := by
+  constructor
+  · rintro ⟨g, h⟩
+    obtain ⟨t, ht, _⟩ := C20_gw_sound s g h
+    exact ⟨t, ht⟩
+  · rintro ⟨t, ht⟩
+    obtain ⟨g, h, _⟩ := C20_gw_complete_relaxed s t ht
+    exact ⟨g, h⟩
+
+/-- **The rejection clause.** gwbased `Parse` rejects every string with no leading slash, a NUL, a byte outside the
+    template alphabet, an ill-formed percent-escape, unbalanced or nested variable braces, an empty or ill-formed
+    field path, or an empty segment — each class is disjoint from the relaxed grammar's language
+    (ProofsClasses.lean), and `C20_gw_sound` puts every accepted string into that language. -/
+theorem C20_gw_rejects (s : Bytes)
+    (h : noLeadingSlash s = true ∨ (0 : UInt8) ∈ s ∨ illegalChar s = true ∨ badPercent s = true ∨
+         badBraces s = true ∨ badFieldPath s = true ∨ emptySegment s = true) : ∀ g, gwParse s ≠ .ok g := by
+  intro g hg
+  obtain ⟨t, ⟨hw, hr⟩, _⟩ := C20_gw_sound s g hg
+  rcases h with h | h | h | h | h | h | h
+  · exact C20_gw_rejects_partial s (.inl h) g hg
+  · exact C20_gw_rejects_partial s (.inr (.inl h)) g hg
+  · exact C20_gw_rejects_partial s (.inr (.inr h)) g hg
+  · rw [← hr, render_badPercent true t hw] at h; exact absurd h (by simp)
+  · rw [← hr, render_badBraces true t hw] at h; exact absurd h (by simp)
+  · rw [← hr, render_badFieldPath true t hw] at h; exact absurd h (by simp)
+  · rw [← hr, render_emptySegment true t hw] at h; exact absurd h (by simp)
+
+/-- the classes are inhabited by the defect witnesses: "//" (D19), "/{a=/}" (D19), "/a:b}" (D22), "/a:%zz" (D22),
+    "/{a={b}}" (nested), "/{a.}" (empty field path component) -/
+example : emptySegment [47, 47] = true ∧ emptySegment [47, 123, 97, 61, 47, 125] = true ∧
+    badBraces [47, 97, 58, 98, 125] = true ∧ badPercent [47, 97, 58, 37, 122, 122] = true ∧
+    badBraces [47, 123, 97, 61, 123, 98, 125, 125] = true ∧ badFieldPath [47, 123, 97, 46, 125] = true := by decide
+
 /-! ### strict parser -/
 
 /-
-  Full statement:  C20_strict_exact : (∃ T, stParse s = .ok T) ↔ (∃ t, Derives s t)
-  Proved: the direction ⇐ (every string of the grammar is accepted, with the grammar's verb).
-  Missing: ⇒ (acceptance implies derivability); same missing argument as for gwbased. The run checks it
-  on every case line (`st`): the implementation and the model must reject whatever the recogniser rejects.
+  The direction ⇐ of `C20_strict_exact` (every string of the grammar is accepted, with the grammar's verb).
+  Kept under its original name; the full equivalence is `C20_strict_exact` below.
 -/
 theorem C20_strict_exact_partial (s : Bytes) (t : Tmpl) (h : Derives s t) :
     ∃ T, stParse s = .ok T ∧ T.verb = t.verbStr ∧ T.tmpl = s := by
@@ -181,6 +263,53 @@ theorem C20_strict_exact_partial (s : Bytes) (t : Tmpl) (h : Derives s t) :
   obtain ⟨T, h1, h2, h3⟩ := stParse_render t hw
   rw [hr] at h1 h3
   exact ⟨T, h1, h2, h3⟩
+
+/-- **Strict soundness** (the direction ⇒): whatever the strict parser accepts is derivable, and the verb it
+    returns is the verb the grammar assigns. The proof threads the synchronisation invariant `ValidE`
+    (ProofsSync.lean: the remaining tokens are what the tokenizer emits from a token boundary in the state the
+    parser function expects) through `segments` / `segment` / `variable` / `fieldPath`. -/
+theorem C20_strict_sound (s : Bytes) (T : StTemplate) (h : stParse s = .ok T) :
+    ∃ t, Derives s t ∧ T.verb = t.verbStr := by
+  obtain ⟨t, h1, h2, h3⟩ := stParse_sound s T h
+  exact ⟨t, ⟨h1, h2⟩, h3⟩
+
+/-- **The strict parser accepts exactly the grammar's language**, for all byte strings. -/
+theorem C20_strict_exact (s : Bytes) : (∃ T, stParse s = .ok T) ↔ (∃ t, Derives s t) := by
+  constructor
+  · rintro ⟨T, h⟩
+    obtain ⟨t, ht, _⟩ := C20_strict_sound s T h
+    exact ⟨t, ht⟩
+  · rintro ⟨t, ht⟩
+    obtain ⟨T, h, _⟩ := C20_strict_exact_partial s t ht
+    exact ⟨T, h⟩
+
+/-- the same rejection clause for the strict parser -/
+theorem C20_strict_rejects (s : Bytes)
+    (h : noLeadingSlash s = true ∨ (0 : UInt8) ∈ s ∨ badPercent s = true ∨
+         badBraces s = true ∨ badFieldPath s = true ∨ emptySegment s = true) : ∀ T, stParse s ≠ .ok T := by
+  intro T hT
+  obtain ⟨t, hw, hr, _⟩ := stParse_sound s T hT
+  have hrej : ∀ hh : noLeadingSlash s = true ∨ (0 : UInt8) ∈ s, False := by
+    intro hh
+    unfold stParse at hT
+    cases s with
+    | nil => simp at hT
+    | cons c body =>
+      simp only at hT
+      by_cases hc : (c != cSlash) = true
+      · simp [hc] at hT
+      · simp only [hc, Bool.false_eq_true, if_false] at hT
+        rcases hh with hh | hh
+        · simp [noLeadingSlash] at hh hc; exact absurd hc hh
+        · have : (c :: body).contains 0 = true := by simpa using hh
+          rw [if_pos this] at hT; exact absurd hT (by simp)
+  rcases h with h | h | h | h | h | h
+  · exact hrej (.inl h)
+  · exact hrej (.inr h)
+  · rw [← hr, render_badPercent false t hw] at h; exact absurd h (by simp)
+  · rw [← hr, render_badBraces false t hw] at h; exact absurd h (by simp)
+  · rw [← hr, render_badFieldPath false t hw] at h; exact absurd h (by simp)
+  · rw [← hr, render_emptySegment false t hw] at h; exact absurd h (by simp)
 
 /-- the strict parser rejects what has no leading slash or contains the in-band eof byte -/
 theorem C20_strict_rejects_partial (s : Bytes) (h : noLeadingSlash s = true ∨ (0 : UInt8) ∈ s) :
